@@ -536,7 +536,7 @@ theorem C09_in_block (close : Rat → Rat → Bool) (st : St) (items : List MIte
 
 example : ∃ items, writeToFile closeGen
     { cells := [⟨1, [⟨0, 1, [0]⟩], some 3, some 2, false, none, none, false, false, Flags.default⟩], mode := [0],
-      flags := Flags.default, volCalc := true, dataInputs := [none] } = .ok items ∧
+      flags := Flags.default, volCalc := true, dataInputs := [none], realTree := [], nextId := 0 } = .ok items ∧
     Spec.CellData.dataCards (render items) ≠ [] := by
   refine ⟨_, rfl, ?_⟩
   decide
@@ -835,53 +835,31 @@ theorem C09_fill_complex_refused (close : Rat → Rat → Bool) (st : St) (c : C
           simp [treeValue, e', ih h']
   simp [this st.cells hc, Except.map]
 
-theorem step_dataInputs (st : St) (op : Op) : (step st op).1.dataInputs = st.dataInputs := by
-  cases op <;> simp only [step] <;> (repeat' split) <;> rfl
+theorem afterWrite_dataInputs (close : Rat → Rat → Bool) (st : St) : (afterWrite close st).dataInputs = st.dataInputs := by
+  unfold afterWrite
+  repeat' split
+  all_goals rfl
+
+theorem step_dataInputs (close : Rat → Rat → Bool) (st : St) (op : Op) :
+    (step close st op).1.dataInputs = st.dataInputs := by
+  cases op with
+  | write => exact afterWrite_dataInputs close st
+  | observe => rfl
+  | _ => simp only [step] <;> (repeat' split) <;> rfl
 
 /-- the invariant the theorems need (each data-level instance is listed at most once in `data_inputs`) holds after
-    ANY sequence of flag settings, cell insertions, deletions, reorderings and per-cell data edits -/
-theorem C09_history_wf (st : St) (hw : DataInputsOnce st) (ops : List Op) : DataInputsOnce (run st ops) := by
+    ANY sequence of flag settings, cell insertions, deletions, reorderings, per-cell data edits, observations and WRITES -/
+theorem C09_history_wf (close : Rat → Rat → Bool) (st : St) (hw : DataInputsOnce st) (ops : List Op) :
+    DataInputsOnce (run close st ops) := by
   induction ops generalizing st with
   | nil => exact hw
   | cons op rest ih =>
-    have : run st (op :: rest) = run (step st op).1 rest := rfl
+    have : run close st (op :: rest) = run close (step close st op).1 rest := rfl
     rw [this]
     apply ih
     intro k
     rw [step_dataInputs]
     exact hw k
-
-/-- **history**: after ANY sequence of flag settings, cell insertions, deletions, reorderings and per-cell data
-    edits, the file that is written gives every datum a cell then holds exactly once, in the block the flag then
-    names, aligned to the cell's position at that time, with the cell's value; every per-cell card is inside the
-    data block proper. (Induction over the sequence; VOL, U, LAT, FILL — importances: `C09_imp_cell_once`.) -/
-theorem C09_history (close : Rat → Rat → Bool) (st : St) (hw : DataInputsOnce st) (ops : List Op) (items : List MItem)
-    (h : writeToFile close (run st ops) = .ok items) :
-    Spec.CellData.allDataCardsRead (render items) = true ∧
-    ∀ (i : Nat) (c : Cell), (run st ops).cells[i]? = some c → ∀ (k : K), k ≠ K.imp → ∀ (p : P),
-      (∀ v, treeValue c k = .ok (some v) →
-        table (render items) i (convK k) p = [(if (run st ops).flags.get k then Blk.data else Blk.cell, v)]) ∧
-      (treeValue c k = .ok none → table (render items) i (convK k) p = []) := by
-  have hw' := C09_history_wf st hw ops
-  refine ⟨C09_in_block close _ items h, ?_⟩
-  intro i c hc k hk p
-  exact ⟨fun v hv => C09_exactly_once close _ hw' items h i c hc k hk p v hv,
-    fun hv => C09_no_spurious close _ hw' items h i c hc k hk p hv⟩
-
-/-- non-vacuity: a history with an append, a removal, a move, an edit and a flag change on a concrete state; the
-    final write succeeds and puts the volume of the moved cell at its new index in the data block -/
-example :
-    let st : St := { cells := [⟨1, [⟨0, 1, [0]⟩], some 3, some 2, false, none, none, false, false, Flags.default⟩,
-                               ⟨2, [⟨0, 1, [0]⟩], none, some 0, false, none, none, false, false, Flags.default⟩],
-                     mode := [0], flags := ⟨false, false, false, false, false⟩, volCalc := true, dataInputs := [none] }
-    let ops := [Op.append ⟨3, [⟨0, 0, [0]⟩], some 5, none, false, none, none, false, false, ⟨false, false, false, false, false⟩⟩,
-                Op.moveEnd 0, Op.setVol 0 (some 7), Op.remove 1, Op.setFlag K.vol true]
-    DataInputsOnce st ∧ ∃ items, writeToFile closeGen (run st ops) = .ok items ∧
-      table (render items) 1 (convK K.vol) 0 = [(Blk.data, 3)] ∧ table (render items) 0 (convK K.vol) 0 = [(Blk.data, 7)] := by
-  refine ⟨?_, _, rfl, ?_, ?_⟩
-  · intro k; cases k <;> decide
-  · decide
-  · decide
 
 /-! ## loading -/
 
@@ -1129,33 +1107,6 @@ theorem tryCombine_mem (close : Rat → Rat → Bool) (nv : List (P × List Rat 
       · obtain ⟨y, hy, h1, h2⟩ := ih _ g hg'
         exact ⟨y, List.mem_cons_of_mem _ hy, h1, h2⟩
 
-/-- **IMP cards of the data block are aligned**: every `IMP` card the data-level instance writes has one entry per
-    cell (no jump), and entry `i` is the importance the `i`-th cell (in cell order) holds for the card's first
-    particle; the other particles of a combined card were found close to it entry by entry (`_try_combine_values`). -/
-theorem C09_imp_data_aligned (close : Rat → Rat → Bool) (st : St) (cs : List MCard)
-    (h : formatDataInst close st K.imp = .ok cs) :
-    ∀ card ∈ cs, ∃ p, card.ps.head? = some p ∧ card.vec.length = st.cells.length ∧
-      ∀ (i : Nat) (c : Cell), st.cells[i]? = some c → impHas c.imp p = true ∧ card.vec[i]? = some (some (impGet c.imp p)) := by
-  intro card hcard
-  unfold formatDataInst at h
-  split at h
-  · simp only [impFormatData] at h
-    split at h
-    · simp at h
-    · rename_i nv hnv
-      simp at h; subst h
-      simp only [List.mem_map] at hcard
-      obtain ⟨g, hg, rfl⟩ := hcard
-      obtain ⟨x, hx, h1, h2⟩ := tryCombine_mem close nv nv [] g hg
-      have hone := impCollect_mem st.cells st.mode nv hnv x hx
-      obtain ⟨hl, hget⟩ := impCollectOne_get x.1 st.cells x.2.1 hone
-      refine ⟨x.1, h1, by simp [h2, hl], ?_⟩
-      intro i c hc
-      obtain ⟨a, b⟩ := hget i c hc
-      refine ⟨a, ?_⟩
-      simp [h2, b]
-  · simp at h; subst h; simp at hcard
-
 /-- an IMP vector cannot have a hole: when IMP goes to the data block and some cell holds no importance for a
     particle of the mode, the write is refused (`ParticleTypeNotInCell`) -/
 theorem C09_imp_refused (cells : List Cell) (p : P) (c : Cell) (hc : c ∈ cells) (hp : impHas c.imp p = false) :
@@ -1379,11 +1330,439 @@ theorem ent_groups (gs : List (List P × List Rat)) (i : Nat) (q : P) :
     · have h' : g.1.contains q = false := by simpa using h
       simp only [groupsOf, List.filter_cons, h', Bool.false_eq_true, if_false, List.nil_append]
 
-/-- **importances in the data block: exactly once per particle of the mode** — for every state, when IMP goes to the
-    data block and the write succeeds, the file gives the `i`-th cell exactly one importance for every particle `q`
-    of the mode, in the data block, at the cell's index; its value is the importance the cell holds for `q`, or the
-    importance it holds for a particle whose whole vector was found close to `q`'s (a combined `imp:n,p` card). -/
-theorem C09_imp_data_once (close : Rat → Rat → Bool) (st : St) (hw : DataInputsOnce st) (items : List MItem)
+
+
+/-! ### the data-block trees: identity -/
+
+/-- the invariant of `_real_tree`: one entry per particle, every particle its OWN tree, identities below the next
+    fresh one -/
+def RTInv (rt : List (P × Nat)) (n : Nat) : Prop :=
+  (rt.map (·.1)).Nodup ∧ (rt.map (·.2)).Nodup ∧ ∀ x ∈ rt, x.2 < n
+
+theorem rtId_of_mem {rt : List (P × Nat)} (hk : (rt.map (·.1)).Nodup) {p : P} {t : Nat} (h : (p, t) ∈ rt) :
+    rtId rt p = some t := by
+  induction rt with
+  | nil => simp at h
+  | cons x rest ih =>
+    simp only [List.map_cons, List.nodup_cons] at hk
+    rcases List.mem_cons.mp h with rfl | h'
+    · simp [rtId]
+    · have hne : x.1 ≠ p := by
+        intro e
+        apply hk.1
+        rw [e]
+        exact List.mem_map_of_mem (f := (·.1)) h'
+      have : (x.1 == p) = false := by simpa using hne
+      have ih' := ih hk.2 h'
+      simp only [rtId, List.find?_cons, this] at ih' ⊢
+      exact ih'
+
+theorem mem_of_rtId {rt : List (P × Nat)} {p : P} {t : Nat} (h : rtId rt p = some t) : (p, t) ∈ rt := by
+  unfold rtId at h
+  cases hf : rt.find? (fun x => x.1 == p) with
+  | none => simp [hf] at h
+  | some x =>
+    simp [hf] at h
+    have hx : x ∈ rt := List.mem_of_find?_eq_some hf
+    have hp : x.1 = p := by simpa using List.find?_some hf
+    have : x = (p, t) := by
+      cases x; simp at hp h; simp [hp, h]
+    rw [← this]; exact hx
+
+/-- with every particle its own tree, a tree identity names its particle -/
+theorem rt_inj {rt : List (P × Nat)} (hi : (rt.map (·.2)).Nodup) {p p' : P} {t : Nat}
+    (h : (p, t) ∈ rt) (h' : (p', t) ∈ rt) : p = p' := by
+  induction rt with
+  | nil => simp at h
+  | cons x rest ih =>
+    simp only [List.map_cons, List.nodup_cons] at hi
+    rcases List.mem_cons.mp h with rfl | h1 <;> rcases List.mem_cons.mp h' with h2 | h2
+    · cases h2; rfl
+    · exact absurd (List.mem_map_of_mem (f := (·.2)) h2) hi.1
+    · subst h2; exact absurd (List.mem_map_of_mem (f := (·.2)) h1) hi.1
+    · exact ih hi.2 h1 h2
+
+theorem rt_fun {rt : List (P × Nat)} (hk : (rt.map (·.1)).Nodup) {p : P} {t t' : Nat}
+    (h : (p, t) ∈ rt) (h' : (p, t') ∈ rt) : t = t' := by
+  have a := rtId_of_mem hk h
+  have b := rtId_of_mem hk h'
+  rw [a] at b
+  exact Option.some.inj b
+
+/-- `allocate` keeps the invariant: new trees get fresh identities -/
+theorem allocate_inv : ∀ (ps : List P) (rt : List (P × Nat)) (n : Nat), RTInv rt n →
+    RTInv (allocate rt n ps).1 (allocate rt n ps).2 := by
+  intro ps
+  induction ps with
+  | nil => intro rt n h; exact h
+  | cons p rest ih =>
+    intro rt n h
+    simp only [allocate]
+    split
+    · exact ih rt n h
+    · rename_i hnew
+      apply ih
+      obtain ⟨h1, h2, h3⟩ := h
+      have hnew' : ∀ x ∈ rt, x.1 ≠ p := by
+        intro x hx e
+        apply hnew
+        rw [List.any_eq_true]
+        exact ⟨x, hx, by simp [e]⟩
+      refine ⟨?_, ?_, ?_⟩
+      · rw [List.map_append, List.nodup_append]
+        refine ⟨h1, by simp, ?_⟩
+        intro a ha b hb
+        simp at hb
+        subst hb
+        obtain ⟨x, hx, rfl⟩ := List.mem_map.mp ha
+        exact hnew' x hx
+      · rw [List.map_append, List.nodup_append]
+        refine ⟨h2, by simp, ?_⟩
+        intro a ha b hb
+        simp at hb
+        subst hb
+        obtain ⟨x, hx, rfl⟩ := List.mem_map.mp ha
+        exact Nat.ne_of_lt (h3 x hx)
+      · intro x hx
+        rcases List.mem_append.mp hx with hx | hx
+        · exact Nat.lt_succ_of_lt (h3 x hx)
+        · simp at hx; subst hx; exact Nat.lt_succ_self n
+
+/-- `allocate` only appends: the entries there stay -/
+theorem allocate_mono : ∀ (ps : List P) (rt : List (P × Nat)) (n : Nat), ∀ x ∈ rt, x ∈ (allocate rt n ps).1 := by
+  intro ps
+  induction ps with
+  | nil => intro rt n x hx; exact hx
+  | cons p rest ih =>
+    intro rt n x hx
+    simp only [allocate]
+    split
+    · exact ih rt n x hx
+    · exact ih _ _ x (List.mem_append_left _ hx)
+
+/-- after `allocate` every particle met has a tree -/
+theorem allocate_keys : ∀ (ps : List P) (rt : List (P × Nat)) (n : Nat), ∀ p ∈ ps,
+    ∃ t, (p, t) ∈ (allocate rt n ps).1 := by
+  intro ps
+  induction ps with
+  | nil => intro rt n p hp; simp at hp
+  | cons p0 rest ih =>
+    intro rt n p hp
+    simp only [allocate]
+    rcases List.mem_cons.mp hp with rfl | hp'
+    · split
+      · rename_i hold
+        rw [List.any_eq_true] at hold
+        obtain ⟨x, hx, hxp⟩ := hold
+        have : x.1 = p := by simpa using hxp
+        exact ⟨x.2, allocate_mono rest rt n (p, x.2) (by rw [← this]; exact hx)⟩
+      · exact ⟨n, allocate_mono rest _ _ (p, n) (List.mem_append_right _ (by simp))⟩
+    · split
+      · exact ih rt n p hp'
+      · exact ih _ _ p hp'
+
+/-- the groups are pairwise disjoint: two groups that list one particle are the same group -/
+def Disjoint (gs : List (List P × List Rat)) : Prop :=
+  ∀ g1 ∈ gs, ∀ g2 ∈ gs, ∀ x, x ∈ g1.1 → x ∈ g2.1 → g1 = g2
+
+theorem mem_groupsOf {q : P} {gs : List (List P × List Rat)} {g : List P × List Rat} (hg : g ∈ gs) (hq : q ∈ g.1) :
+    g ∈ groupsOf q gs := by
+  simp only [groupsOf, List.mem_filter]
+  exact ⟨hg, by simpa using hq⟩
+
+/-- `_try_combine_values` yields pairwise disjoint groups (a particle that is covered is in no later group) -/
+theorem tryCombine_disjoint (close : Rat → Rat → Bool) (nv : List (P × List Rat × List P)) :
+    ∀ (l : List (P × List Rat × List P)) (cov : List P), Disjoint (tryCombineValues close nv l cov) := by
+  intro l
+  induction l with
+  | nil => intro cov g1 h1; simp [tryCombineValues] at h1
+  | cons x rest ih =>
+    intro cov
+    obtain ⟨p, gold, pair⟩ := x
+    simp only [tryCombineValues]
+    split
+    · exact ih cov
+    · intro g1 h1 g2 h2 x hx1 hx2
+      have later : ∀ g ∈ tryCombineValues close nv rest (cov ++ [p] ++ combineInner close nv p gold pair (cov ++ [p])),
+          ∀ y, y ∈ (p :: combineInner close nv p gold pair (cov ++ [p])) → y ∉ g.1 := by
+        intro g hg y hy hyg
+        have hcov : y ∈ cov ++ [p] ++ combineInner close nv p gold pair (cov ++ [p]) := by
+          rcases List.mem_cons.mp hy with rfl | h
+          · exact List.mem_append_left _ (List.mem_append_right _ (by simp))
+          · exact List.mem_append_right _ h
+        have := tryCombine_covered close nv y rest _ hcov
+        have hm := mem_groupsOf hg hyg
+        rw [this] at hm
+        simp at hm
+      rcases List.mem_cons.mp h1 with rfl | h1' <;> rcases List.mem_cons.mp h2 with rfl | h2'
+      · rfl
+      · exact absurd hx2 (later g2 h2' x hx1)
+      · exact absurd hx1 (later g1 h1' x hx2)
+      · exact ih _ g1 h1' g2 h2' x hx1 hx2
+
+/-! what a tree holds after `_update_values` -/
+
+theorem treeAfter_mem {writes : List (Nat × (List P × List Rat))} {t : Nat} {g : List P × List Rat}
+    (h : treeAfter writes t = some g) : (t, g) ∈ writes := by
+  unfold treeAfter at h
+  cases hl : (writes.filter (fun w => w.1 == t)).getLast? with
+  | none => simp [hl] at h
+  | some w =>
+    simp [hl] at h
+    have hm : w ∈ writes.filter (fun w => w.1 == t) := List.mem_of_getLast? hl
+    rw [List.mem_filter] at hm
+    have : w = (t, g) := by
+      cases w; simp at hm h; simp [hm.2, h]
+    rw [← this]; exact hm.1
+
+theorem treeAfter_of_all {writes : List (Nat × (List P × List Rat))} {t : Nat} {g : List P × List Rat}
+    (hne : (t, g) ∈ writes) (hall : ∀ g', (t, g') ∈ writes → g' = g) : treeAfter writes t = some g := by
+  unfold treeAfter
+  have hmem : (t, g) ∈ writes.filter (fun w => w.1 == t) := by
+    rw [List.mem_filter]; exact ⟨hne, by simp⟩
+  cases hl : (writes.filter (fun w => w.1 == t)).getLast? with
+  | none =>
+    rw [List.getLast?_eq_none_iff] at hl
+    rw [hl] at hmem; simp at hmem
+  | some w =>
+    have hm : w ∈ writes.filter (fun w => w.1 == t) := List.mem_of_getLast? hl
+    rw [List.mem_filter] at hm
+    have hw1 : w.1 = t := by simpa using hm.2
+    have : w.2 = g := hall w.2 (by rw [← hw1]; exact hm.1)
+    simp [this]
+
+theorem impWrites_mem {rt : List (P × Nat)} {gs : List (List P × List Rat)} {t : Nat} {g : List P × List Rat} :
+    (t, g) ∈ impWrites rt gs ↔ g ∈ gs ∧ ∃ p ∈ g.1, rtId rt p = some t := by
+  simp only [impWrites, List.mem_flatMap, List.mem_filterMap, Option.map_eq_some_iff]
+  constructor
+  · rintro ⟨g', hg', p, hp, t', ht', heq⟩
+    cases heq
+    exact ⟨hg', p, hp, ht'⟩
+  · rintro ⟨hg, p, hp, ht⟩
+    exact ⟨g, hg, p, hp, t, ht, rfl⟩
+
+/-- with every particle its own tree, the tree of a particle of a group holds that group after `_update_values` -/
+theorem treeAfter_group {rt : List (P × Nat)} {n : Nat} (hinv : RTInv rt n) {gs : List (List P × List Rat)}
+    (hd : Disjoint gs) {q : P} {tq : Nat} (hq : (q, tq) ∈ rt) {gq : List P × List Rat} (hgq : gq ∈ gs) (hqg : q ∈ gq.1) :
+    treeAfter (impWrites rt gs) tq = some gq := by
+  apply treeAfter_of_all
+  · exact impWrites_mem.mpr ⟨hgq, q, hqg, rtId_of_mem hinv.1 hq⟩
+  · intro g' hg'
+    obtain ⟨hg'gs, p, hp, hpt⟩ := impWrites_mem.mp hg'
+    have : q = p := rt_inj hinv.2.1 hq (mem_of_rtId hpt)
+    subst this
+    exact hd g' hg'gs gq hgq q hp hqg
+
+/-- a tree holds a group of `gs` that lists the tree's own particle -/
+theorem treeAfter_own {rt : List (P × Nat)} {n : Nat} (hinv : RTInv rt n) {gs : List (List P × List Rat)}
+    {p : P} {t : Nat} (hp : (p, t) ∈ rt) {g : List P × List Rat} (h : treeAfter (impWrites rt gs) t = some g) :
+    g ∈ gs ∧ p ∈ g.1 := by
+  obtain ⟨hg, p', hp', hpt⟩ := impWrites_mem.mp (treeAfter_mem h)
+  have : p = p' := rt_inj hinv.2.1 hp (mem_of_rtId hpt)
+  subst this
+  exact ⟨hg, hp'⟩
+
+
+
+/-- what is printed so far is a union of whole groups -/
+def Whole (gs : List (List P × List Rat)) (printed : List P) : Prop :=
+  ∀ x ∈ printed, ∃ g ∈ gs, x ∈ g.1 ∧ ∀ y ∈ g.1, y ∈ printed
+
+theorem whole_append {gs : List (List P × List Rat)} {printed : List P} (h : Whole gs printed)
+    {g : List P × List Rat} (hg : g ∈ gs) : Whole gs (printed ++ g.1) := by
+  intro x hx
+  rcases List.mem_append.mp hx with hx | hx
+  · obtain ⟨g0, hg0, hx0, hall⟩ := h x hx
+    exact ⟨g0, hg0, hx0, fun y hy => List.mem_append_left _ (hall y hy)⟩
+  · exact ⟨g, hg, hx, fun y hy => List.mem_append_right _ hy⟩
+
+/-- `_format_tree` (data block): a particle printed already is in no later printed tree -/
+theorem fmt_printed {rt : List (P × Nat)} {n : Nat} (hinv : RTInv rt n) {gs : List (List P × List Rat)}
+    (hd : Disjoint gs) (q : P) :
+    ∀ (ents : List (P × Nat)) (printed : List P), (∀ e ∈ ents, e ∈ rt) → Whole gs printed → q ∈ printed →
+      groupsOf q (impFormatTreeData (impWrites rt gs) ents printed) = [] := by
+  intro ents
+  induction ents with
+  | nil => intro printed _ _ _; rfl
+  | cons e rest ih =>
+    intro printed hsub hwh hq
+    obtain ⟨p, t⟩ := e
+    have hsub' : ∀ e ∈ rest, e ∈ rt := fun e he => hsub e (List.mem_cons_of_mem _ he)
+    simp only [impFormatTreeData]
+    split
+    · exact ih printed hsub' hwh hq
+    · rename_i hp
+      have hp' : p ∉ printed := by simpa using hp
+      split
+      · rename_i g hg
+        obtain ⟨hggs, hpg⟩ := treeAfter_own hinv (hsub (p, t) List.mem_cons_self) hg
+        have hqg : q ∉ g.1 := by
+          intro hqg
+          obtain ⟨g0, hg0, hq0, hall⟩ := hwh q hq
+          have : g0 = g := hd g0 hg0 g hggs q hq0 hqg
+          subst this
+          exact hp' (hall p hpg)
+        have hcont : g.1.contains q = false := by simpa using hqg
+        simp only [groupsOf, List.filter_cons, hcont, Bool.false_eq_true, if_false]
+        exact ih _ hsub' (whole_append hwh hggs) (List.mem_append_left _ hq)
+      · exact ih printed hsub' hwh hq
+
+/-- `_format_tree` (data block): **with every particle its own tree, a particle that has a tree and is in a group is
+    printed exactly once, with its group** -/
+theorem fmt_once {rt : List (P × Nat)} {n : Nat} (hinv : RTInv rt n) {gs : List (List P × List Rat)}
+    (hd : Disjoint gs) (q : P) (tq : Nat) (gq : List P × List Rat) (hgq : gq ∈ gs) (hqg : q ∈ gq.1) :
+    ∀ (ents : List (P × Nat)) (printed : List P), (∀ e ∈ ents, e ∈ rt) → Whole gs printed → q ∉ printed →
+      (q, tq) ∈ ents → groupsOf q (impFormatTreeData (impWrites rt gs) ents printed) = [gq] := by
+  intro ents
+  induction ents with
+  | nil => intro printed _ _ _ h; simp at h
+  | cons e rest ih =>
+    intro printed hsub hwh hq hmem
+    obtain ⟨p, t⟩ := e
+    have hsub' : ∀ e ∈ rest, e ∈ rt := fun e he => hsub e (List.mem_cons_of_mem _ he)
+    have hprt : (p, t) ∈ rt := hsub (p, t) List.mem_cons_self
+    have hqrt : (q, tq) ∈ rt := hsub (q, tq) hmem
+    -- the tree of q itself holds q's group
+    have hown : treeAfter (impWrites rt gs) tq = some gq := treeAfter_group hinv hd hqrt hgq hqg
+    have down : p ≠ q → (q, tq) ∈ rest := by
+      intro hne
+      rcases List.mem_cons.mp hmem with h | h
+      · cases h; exact absurd rfl hne
+      · exact h
+    simp only [impFormatTreeData]
+    split
+    · rename_i hp
+      have hp' : p ∈ printed := by simpa using hp
+      exact ih printed hsub' hwh hq (down (fun e => hq (e ▸ hp')))
+    · split
+      · rename_i g hg
+        obtain ⟨hggs, hpg⟩ := treeAfter_own hinv hprt hg
+        by_cases hqin : q ∈ g.1
+        · have : g = gq := hd g hggs gq hgq q hqin hqg
+          subst this
+          have hcont : g.1.contains q = true := by simpa using hqin
+          simp only [groupsOf, List.filter_cons, hcont, if_true]
+          have := fmt_printed hinv hd q rest (printed ++ g.1) hsub' (whole_append hwh hggs) (List.mem_append_right _ hqin)
+          simp only [groupsOf] at this
+          rw [this]
+        · have hne : p ≠ q := by
+            intro e
+            subst e
+            have : t = tq := rt_fun hinv.1 hprt hqrt
+            subst this
+            rw [hown] at hg
+            cases hg
+            exact hqin hqg
+          have hcont : g.1.contains q = false := by simpa using hqin
+          simp only [groupsOf, List.filter_cons, hcont, Bool.false_eq_true, if_false]
+          have hq' : q ∉ printed ++ g.1 := by
+            intro h
+            rcases List.mem_append.mp h with h | h
+            · exact hq h
+            · exact hqin h
+          exact ih _ hsub' (whole_append hwh hggs) hq' (down hne)
+      · rename_i hnone
+        have hne : p ≠ q := by
+          intro e
+          subst e
+          have : t = tq := rt_fun hinv.1 hprt hqrt
+          subst this
+          rw [hown] at hnone
+          cases hnone
+        exact ih printed hsub' hwh hq (down hne)
+
+
+
+theorem impGroups_eq (close : Rat → Rat → Bool) (st : St) (gs : List (List P × List Rat))
+    (h : impGroups close st = .ok gs) :
+    ∃ nv, impCollect st.cells st.mode = .ok nv ∧ gs = tryCombineValues close nv nv [] := by
+  unfold impGroups at h
+  cases hnv : impCollect st.cells st.mode with
+  | error e => simp [hnv] at h
+  | ok nv => simp [hnv] at h; exact ⟨nv, rfl, h.symm⟩
+
+/-- every tree that is printed holds one of the groups -/
+theorem fmt_sub (rt : List (P × Nat)) (gs : List (List P × List Rat)) :
+    ∀ (ents : List (P × Nat)) (printed : List P), ∀ g ∈ impFormatTreeData (impWrites rt gs) ents printed, g ∈ gs := by
+  intro ents
+  induction ents with
+  | nil => intro printed g hg; simp [impFormatTreeData] at hg
+  | cons e rest ih =>
+    intro printed g hg
+    obtain ⟨p, t⟩ := e
+    simp only [impFormatTreeData] at hg
+    split at hg
+    · exact ih printed g hg
+    · split at hg
+      · rename_i g0 hg0
+        rcases List.mem_cons.mp hg with rfl | h
+        · exact (impWrites_mem.mp (treeAfter_mem hg0)).1
+        · exact ih _ g h
+      · exact ih printed g hg
+
+/-- **IMP cards of the data block are aligned**: every `IMP` card the data-level instance writes has one entry per
+    cell (no jump), and entry `i` is the importance the `i`-th cell (in cell order) holds for the card's first
+    particle; the other particles of a combined card were found close to it entry by entry (`_try_combine_values`). -/
+theorem C09_imp_data_aligned (close : Rat → Rat → Bool) (st : St) (cs : List MCard)
+    (h : formatDataInst close st K.imp = .ok cs) :
+    ∀ card ∈ cs, ∃ p, card.ps.head? = some p ∧ card.vec.length = st.cells.length ∧
+      ∀ (i : Nat) (c : Cell), st.cells[i]? = some c → impHas c.imp p = true ∧ card.vec[i]? = some (some (impGet c.imp p)) := by
+  intro card hcard
+  unfold formatDataInst at h
+  split at h
+  · simp only [impFormatData] at h
+    cases hgs : impGroups close st with
+    | error e => simp [hgs] at h
+    | ok gs =>
+      simp [hgs] at h; subst h
+      obtain ⟨nv, hnv, rfl⟩ := impGroups_eq close st gs hgs
+      simp only [List.mem_map] at hcard
+      obtain ⟨g, hg, rfl⟩ := hcard
+      have hg' := fmt_sub _ _ _ _ g hg
+      obtain ⟨x, hx, h1, h2⟩ := tryCombine_mem close nv nv [] g hg'
+      have hone := impCollect_mem st.cells st.mode nv hnv x hx
+      obtain ⟨hl, hget⟩ := impCollectOne_get x.1 st.cells x.2.1 hone
+      refine ⟨x.1, h1, by simp [h2, hl], ?_⟩
+      intro i c hc
+      obtain ⟨a, b⟩ := hget i c hc
+      refine ⟨a, ?_⟩
+      simp [h2, b]
+  · simp at h; subst h; simp at hcard
+
+/-- **with every particle its own tree, the data block prints every particle of the mode exactly once**: the trees
+    printed by `_format_tree` after `_update_values` that list `q` are exactly `q`'s group -/
+theorem impData_once (close : Rat → Rat → Bool) (st : St) (hrt : RTInv st.realTree st.nextId)
+    (nv : List (P × List Rat × List P)) (hnv : impCollect st.cells st.mode = .ok nv) (q : P) (hq : q ∈ st.mode) :
+    ∃ g, groupsOf q (impFormatTreeData
+          (impWrites (impRealTreeAfter st (tryCombineValues close nv nv [])).1 (tryCombineValues close nv nv []))
+          (impRealTreeAfter st (tryCombineValues close nv nv [])).1 []) = [g] ∧
+      ((∃ x ∈ nv, x.1 = q ∧ g.2 = x.2.1) ∨ (∃ x ∈ nv, g.2 = x.2.1 ∧ allClose close g.2 (newVals nv q) = true)) := by
+  have hk := impCollect_keys st.cells st.mode nv hnv
+  have hex : ∃ x ∈ nv, x.1 = q := by
+    rw [← hk] at hq
+    simpa using hq
+  obtain ⟨g, hg, hval⟩ := tryCombine_once close nv q nv [] (by simp) hex
+  refine ⟨g, ?_, hval⟩
+  have hgm : g ∈ groupsOf q (tryCombineValues close nv nv []) := by rw [hg]; simp
+  simp only [groupsOf, List.mem_filter] at hgm
+  have hggs := hgm.1
+  have hqg : q ∈ g.1 := by simpa using hgm.2
+  have hinv' := allocate_inv ((tryCombineValues close nv nv []).flatMap (·.1)) st.realTree st.nextId hrt
+  have hqall : q ∈ (tryCombineValues close nv nv []).flatMap (·.1) := by
+    rw [List.mem_flatMap]; exact ⟨g, hggs, hqg⟩
+  obtain ⟨tq, htq⟩ := allocate_keys _ st.realTree st.nextId q hqall
+  exact fmt_once hinv' (tryCombine_disjoint close nv nv []) q tq g hggs hqg _ [] (fun e he => he)
+    (by intro x hx; simp at hx) (by simp) htq
+
+
+
+/-- **importances in the data block: exactly once per particle of the mode** — for every state in which every
+    particle has its OWN data-block tree (`RTInv`), when IMP goes to the data block and the write succeeds, the file
+    gives the `i`-th cell exactly one importance for every particle `q` of the mode, in the data block, at the cell's
+    index; its value is the importance the cell holds for `q`, or the importance it holds for a particle whose whole
+    vector was found close to `q`'s (a combined `imp:n,p` card). -/
+theorem C09_imp_data_once (close : Rat → Rat → Bool) (st : St) (hw : DataInputsOnce st)
+    (hrt : RTInv st.realTree st.nextId) (items : List MItem)
     (h : writeToFile close st = .ok items) (hf : st.flags.imp = true)
     (i : Nat) (c : Cell) (hc : st.cells[i]? = some c) (q : P) (hq : q ∈ st.mode) :
     ∃ v, table (render items) i (convK K.imp) q = [(Blk.data, v)] ∧
@@ -1398,17 +1777,14 @@ theorem C09_imp_data_once (close : Rat → Rat → Bool) (st : St) (hw : DataInp
   unfold formatDataInst at hcs
   simp only [prints, Flags.get, hf, hany] at hcs
   simp only [Bool.false_bne, Bool.and_self, if_true, impFormatData] at hcs
-  cases hnv : impCollect st.cells st.mode with
-  | error e => simp [hnv] at hcs
-  | ok nv =>
-    simp [hnv] at hcs
+  cases hgs : impGroups close st with
+  | error e => simp [hgs] at hcs
+  | ok gs =>
+    simp [hgs] at hcs
     subst hcs
+    obtain ⟨nv, hnv, rfl⟩ := impGroups_eq close st gs hgs
     have hk := impCollect_keys st.cells st.mode nv hnv
-    have hex : ∃ x ∈ nv, x.1 = q := by
-      rw [← hk] at hq
-      simpa using hq
-    obtain ⟨g, hg, hval⟩ := tryCombine_once close nv q nv [] (by simp) hex
-    -- q's own vector
+    obtain ⟨g, hg, hval⟩ := impData_once close st hrt nv hnv q hq
     have hqv := newVals_collect st.cells st.mode nv hnv q hq
     obtain ⟨hql, hqget⟩ := impCollectOne_get q st.cells _ hqv
     obtain ⟨_, hqi⟩ := hqget i c hc
@@ -1431,6 +1807,102 @@ theorem C09_imp_data_once (close : Rat → Rat → Bool) (st : St) (hw : DataInp
     refine ⟨v, ?_, hrel⟩
     rw [hcell, ent_groups, hg]
     simp [cellEnt, cellEntries, hv]
+
+/-- **identity matters** (witnesses): if two particles share ONE data-block tree — what `dict.fromkeys(parts, tree)`
+    would make — and then get different vectors, the later write wins: one particle is not printed at all
+    (first witness), or one is printed twice and the other not at all (second witness, the other set order). -/
+theorem C09_imp_shared_tree_refuted :
+    let rt : List (P × Nat) := [(0, 0), (1, 0)]                      -- n and p share tree 0
+    let gs : List (List P × List Rat) := [([0], [1, 1]), ([1], [1, 8])]   -- the particles differ: two sets
+    let gs' : List (List P × List Rat) := [([1], [1, 8]), ([0], [1, 1])]
+    ¬ RTInv rt 1 ∧
+    groupsOf 0 (impFormatTreeData (impWrites rt gs) rt []) = [] ∧
+    (groupsOf 0 (impFormatTreeData (impWrites rt gs') rt [])).length = 2 ∧
+    groupsOf 1 (impFormatTreeData (impWrites rt gs') rt []) = [] := by
+  refine ⟨?_, by decide, by decide, by decide⟩
+  intro h
+  have := h.2.1
+  simp at this
+
+/-! ## histories, writes included -/
+
+theorem afterWrite_rt (close : Rat → Rat → Bool) (st : St) (h : RTInv st.realTree st.nextId) :
+    RTInv (afterWrite close st).realTree (afterWrite close st).nextId := by
+  unfold afterWrite
+  split
+  · exact h
+  · split
+    · split
+      · exact allocate_inv _ _ _ h
+      · exact h
+    · exact h
+
+theorem step_rt (close : Rat → Rat → Bool) (st : St) (op : Op) (h : RTInv st.realTree st.nextId) :
+    RTInv (step close st op).1.realTree (step close st op).1.nextId := by
+  cases op with
+  | write => exact afterWrite_rt close st h
+  | observe => exact h
+  | _ => simp only [step] <;> (repeat' split) <;> exact h
+
+/-- **every particle keeps its own data-block tree**: the identity invariant holds after ANY sequence of edits, flag
+    changes, cell insertions / deletions / reorderings, observations and WRITES (a write creates trees: fresh ones) -/
+theorem C09_history_trees (close : Rat → Rat → Bool) (st : St) (h : RTInv st.realTree st.nextId) (ops : List Op) :
+    RTInv (run close st ops).realTree (run close st ops).nextId := by
+  induction ops generalizing st with
+  | nil => exact h
+  | cons op rest ih =>
+    have : run close st (op :: rest) = run close (step close st op).1 rest := rfl
+    rw [this]
+    exact ih _ (step_rt close st op h)
+
+/-- **history**: after ANY sequence of edits, flag changes, cell insertions, deletions, reorderings, observations and
+    WRITES (each of which may create data-block trees), the file that is written next gives every datum a cell then
+    holds exactly once, in the block the flag then names, aligned to the cell's position at that time, with the cell's
+    value — VOL, U, LAT, FILL, and the importance of every particle of the mode when IMP goes to the data block
+    (cell block: `C09_imp_cell_once`, which needs no history) — and every per-cell card is inside the data block. -/
+theorem C09_history (close : Rat → Rat → Bool) (st : St) (hw : DataInputsOnce st)
+    (hrt : RTInv st.realTree st.nextId) (ops : List Op) (items : List MItem)
+    (h : writeToFile close (run close st ops) = .ok items) :
+    Spec.CellData.allDataCardsRead (render items) = true ∧
+    ∀ (i : Nat) (c : Cell), (run close st ops).cells[i]? = some c →
+      (∀ (k : K), k ≠ K.imp → ∀ (p : P),
+        (∀ v, treeValue c k = .ok (some v) →
+          table (render items) i (convK k) p = [(if (run close st ops).flags.get k then Blk.data else Blk.cell, v)]) ∧
+        (treeValue c k = .ok none → table (render items) i (convK k) p = [])) ∧
+      ((run close st ops).flags.imp = true → ∀ q ∈ (run close st ops).mode,
+        ∃ v, table (render items) i (convK K.imp) q = [(Blk.data, v)] ∧
+          (v = impGet c.imp q ∨ ∃ p ∈ (run close st ops).mode, v = impGet c.imp p ∧ close v (impGet c.imp q) = true)) := by
+  have hw' := C09_history_wf close st hw ops
+  have hrt' := C09_history_trees close st hrt ops
+  refine ⟨C09_in_block close _ items h, ?_⟩
+  intro i c hc
+  refine ⟨?_, ?_⟩
+  · intro k hk p
+    exact ⟨fun v hv => C09_exactly_once close _ hw' items h i c hc k hk p v hv,
+      fun hv => C09_no_spurious close _ hw' items h i c hc k hk p hv⟩
+  · intro hf q hq
+    exact C09_imp_data_once close _ hw' hrt' items h hf i c hc q hq
+
+/-- non-vacuity: a history with a WRITE in the middle (IMP in the data block: the write creates the trees of n and p),
+    then an edit that makes the particles differ, an append, a move and a flag change; the next write succeeds and
+    gives cell 0 its two different importances in the data block, and the volume of the moved cell at its new index -/
+example :
+    let eq : Rat → Rat → Bool := fun a b => a == b
+    let st : St := { cells := [⟨1, [⟨0, 1, [0, 1]⟩, ⟨1, 1, [0, 1]⟩], some 3, some 2, false, none, none, false, false, ⟨false, false, false, false, false⟩⟩,
+                               ⟨2, [⟨0, 1, [0, 1]⟩, ⟨1, 1, [0, 1]⟩], none, some 0, false, none, none, false, false, ⟨false, false, false, false, false⟩⟩],
+                     mode := [0, 1], flags := ⟨true, false, false, false, false⟩, volCalc := true, dataInputs := [none],
+                     realTree := [], nextId := 0 }
+    let ops := [Op.write, Op.setImp 0 [1] 8, Op.observe,
+                Op.append ⟨3, [⟨0, 0, [0]⟩, ⟨1, 0, [1]⟩], some 5, none, false, none, none, false, false, ⟨false, false, false, false, false⟩⟩,
+                Op.moveEnd 1, Op.setFlag K.vol true]
+    DataInputsOnce st ∧ RTInv st.realTree st.nextId ∧
+    (run eq st [Op.write]).realTree = [(0, 0), (1, 1)] ∧
+    ∃ items, writeToFile eq (run eq st ops) = .ok items ∧
+      table (render items) 0 (convK K.imp) 0 = [(Blk.data, 1)] ∧ table (render items) 0 (convK K.imp) 1 = [(Blk.data, 8)] ∧
+      table (render items) 0 (convK K.vol) 0 = [(Blk.data, 3)] ∧ table (render items) 1 (convK K.vol) 0 = [(Blk.data, 5)] := by
+  refine ⟨?_, ?_, by decide, _, rfl, by decide, by decide, by decide, by decide⟩
+  · intro k; cases k <;> decide
+  · exact ⟨by simp, by simp, by simp⟩
 
 
 end MontePyVerif.C09
